@@ -20,6 +20,8 @@ pub enum PAct {
     Ddr(u8, u8), // port, value
     Dr(u8, u8),
     Pins(u8, u8),
+    /// the harness moves the state count (time passes without port activity)
+    Clock(u64),
 }
 
 impl PAct {
@@ -28,10 +30,14 @@ impl PAct {
             PAct::Ddr(p, v) => format!("P{:X}DDR={:02x}", p, v),
             PAct::Dr(p, v) => format!("P{:X}DR={:02x}", p, v),
             PAct::Pins(p, v) => format!("P{:X}pins={:02x}", p, v),
+            PAct::Clock(t) => format!("clock={}", t),
         }
     }
     fn parse(s: &str) -> Option<PAct> {
         let (l, r) = s.split_once('=')?;
+        if l == "clock" {
+            return r.parse().ok().map(PAct::Clock);
+        }
         let v = u8::from_str_radix(r, 16).ok()?;
         let p = u8::from_str_radix(&l[1..2], 16).ok()?;
         match &l[2..] {
@@ -103,6 +109,10 @@ impl PortSys {
     }
 
     fn apply_inner(&mut self, a: &PAct, watch: &[u8]) -> Result<(), String> {
+        if let PAct::Clock(t) = *a {
+            self.clock = t;
+            return Ok(());
+        }
         self.clock += 7;
         self.cpu.bus.cpu_state_sum = self.clock as usize;
         let before: Vec<(u8, u8, u8)> = watch.iter().map(|&p| self.impl_bytes(p)).collect();
@@ -122,6 +132,7 @@ impl PortSys {
                 self.refs[p as usize].pins = v;
                 p
             }
+            PAct::Clock(_) => unreachable!(),
         };
         // messages emitted by this action
         let msgs: Vec<String> = self.rx.try_iter().collect();
@@ -369,6 +380,37 @@ fn c16_units(tier: Tier) -> Vec<Unit> {
             }
         }));
     }
+    // ---- time stamps far into a run: the state count passes 2^31, 2^32, 2^33, 2^40, 2^53 while outputs change
+    units.push(Unit::new(
+        "time-stamps",
+        1,
+        "ports 1 and B: with DDR = ff the output is toggled 12 times while the state count advances in steps of 7 across each of 2^31, 2^32, 2^33, 2^40, 2^53 (starting 40 states below): every change is announced and the time stamps never go back",
+        move |ctx, _| {
+            for p in [1u8, 11] {
+                let mut sys = PortSys::new();
+                let mut path = vec![PAct::Ddr(p, 0xff)];
+                if let Err(m) = sys.apply(&path[0], &[p]) {
+                    report(ctx, &path, m);
+                    continue;
+                }
+                for k in [31u32, 32, 33, 40, 53] {
+                    let c = PAct::Clock((1u64 << k) - 40);
+                    path.push(c);
+                    let _ = sys.apply(&c, &[p]);
+                    for i in 0..12u8 {
+                        let a = PAct::Dr(p, if i % 2 == 0 { 0xa5 } else { 0x5a });
+                        path.push(a);
+                        ctx.st.cases += 1;
+                        ctx.st.nontrivial += 1;
+                        if let Err(m) = sys.apply(&a, &[p]) {
+                            report(ctx, &path, format!("{} (state count about 2^{})", m, k));
+                            break;
+                        }
+                    }
+                }
+            }
+        },
+    ));
     // ---- pairs of ports: all sequences to depth 4 (5 thorough) over both ports
     let mut pairs = Vec::new();
     for a in 1..=11u8 {
